@@ -331,4 +331,79 @@ theorem parseLoop_conserves (E : Env) (help : HelpFn) (fuel : Nat) (s : PS)
               · simp only [if_true]
                 exact ⟨[], by simp [hret2], List.nil_sublist _⟩
 
+/-- **The argument loop terminates**: with a handler that cannot invent tokens every iteration
+    consumes at least one token and none adds any, so the loop is over after at most as many
+    iterations as there are tokens — any two amounts of fuel above that give the same result. -/
+theorem parseLoop_fuel_irrelevant (E : Env) (help : HelpFn) (f1 : Nat) :
+    ∀ (f2 : Nat) (s : PS), s.P.cfg.1.shrinks = true → s.args.length < f1 → s.args.length < f2 →
+      parseLoop E help f1 s = parseLoop E help f2 s := by
+  induction f1 with
+  | zero => intro f2 s _ h1 _; omega
+  | succ f1 ih =>
+    intro f2 s hh h1 h2
+    cases f2 with
+    | zero => omega
+    | succ f2 =>
+      conv => lhs; unfold parseLoop
+      conv => rhs; unfold parseLoop
+      split
+      · rfl
+      · next hne =>
+        cases hargs : s.args with
+        | nil => simp [PS.eof, hargs] at hne
+        | cons arg rest =>
+          have hpop : s.pop = ({ s with arg := arg, args := rest }, arg) := by simp [PS.pop, hargs]
+          simp only [hpop]
+          let s1 : PS := { s with arg := arg, args := rest }
+          have hs1cfg : s1.P.cfg = s.P.cfg := rfl
+          have hlen1 : rest.length < f1 := by rw [hargs] at h1; simp at h1; omega
+          have hlen2 : rest.length < f2 := by rw [hargs] at h2; simp at h2; omega
+          split
+          · rfl
+          · split
+            · split
+              · rfl
+              · have pn := parseNonOption_passes E s1
+                generalize parseNonOption E s1 = pr at pn
+                obtain ⟨s2, stop⟩ := pr
+                obtain ⟨ha, hc, _⟩ := pn
+                have ha' : s2.args = rest := ha
+                cases stop with
+                | true => rfl
+                | false =>
+                  exact ih f2 s2 (by rw [hc, hs1cfg]; exact hh) (by rw [ha']; exact hlen1) (by rw [ha']; exact hlen2)
+            · generalize hres : (if (stripOptionPrefix arg).2.2 = true then
+                  parseLong E help s1 (splitOption (stripOptionPrefix arg).2.1 (stripOptionPrefix arg).2.2).1
+                    (splitOption (stripOptionPrefix arg).2.1 (stripOptionPrefix arg).2.2).2.2
+                else
+                  parseShort E help s1 (splitOption (stripOptionPrefix arg).2.1 (stripOptionPrefix arg).2.2).1
+                    (splitOption (stripOptionPrefix arg).2.1 (stripOptionPrefix arg).2.2).2.2) = res
+              have hcons : Consumes s1 res.1 := by
+                subst hres; split
+                · exact parseLong_consumes ..
+                · exact parseShort_consumes ..
+              obtain ⟨s2, err⟩ := res
+              have hshr : s2.P.cfg.1.shrinks = true := by rw [hcons.cfg, hs1cfg]; exact hh
+              have hsuf2 : s2.args <:+ rest := hcons.args
+              have hl2 : s2.args.length ≤ rest.length := hsuf2.length_le
+              cases err with
+              | none => exact ih f2 s2 hshr (by omega) (by omega)
+              | some e =>
+                simp only
+                cases hstop : unknownPolicyStops s2.P e
+                · simp only [Bool.false_eq_true, if_false]
+                  cases hign : s2.P.opts.ignoreUnknown
+                  · simp only [Bool.false_eq_true, if_false]
+                    split
+                    · rfl
+                    · next args' hrun =>
+                      have hsuf3 := runHandler_suffix _ _ _ _ hshr hrun
+                      have hl3 : args'.length ≤ s2.args.length := hsuf3.length_le
+                      exact ih f2 { s2 with args := args', log := s2.log ++ [Event.unknown _ _ s2.args] } hshr
+                        (by simp only; omega) (by simp only; omega)
+                  · simp only [if_true]
+                    obtain ⟨ha1, hc1, _⟩ := addArgs_passes E s2 [arg]
+                    exact ih f2 (s2.addArgs E [arg]).1 (by rw [hc1]; exact hshr) (by rw [ha1]; omega) (by rw [ha1]; omega)
+                · rfl
+
 end GoFlags
